@@ -81,8 +81,19 @@ def self_mut_result(body, env):
     return env["self.0"]
 
 
+THOROUGH_CONFIGS = ["anstyle-nostd"]
+
+
 def run(ctx):
     rep, facts = ctx.report, ctx.facts
+    if ctx.tier == "thorough" and "anstyle-nostd" in ctx.configs:
+        f2, r2 = ctx.configs["anstyle-nostd"], rep.scoped("anstyle-nostd")
+        r2.guarded("consts", E, lambda: rule_consts(f2, r2))
+        r2.guarded("bitwise", E, lambda: rule_bitwise(f2, r2))
+        r2.guarded("operators", "anstyle", lambda: rule_operators(f2, r2))
+        r2.guarded("iterators", "anstyle::effect", lambda: rule_iterators(f2, r2))
+        r2.guarded("wiring", S, lambda: rule_wiring(f2, r2))
+        r2.guarded("colour-tables", "anstyle::color", lambda: rule_colour_tables(f2, r2))
     rep.guarded("consts", E, lambda: rule_consts(facts, rep))
     rep.guarded("bitwise", E, lambda: rule_bitwise(facts, rep))
     rep.guarded("operators", "anstyle", lambda: rule_operators(facts, rep))
